@@ -35,6 +35,13 @@ def extra_variants():
     out.append(dict(base, name="x-green-order", extra="green"))
     out.append(dict(base, name="x-acl-last-slots", extra="acl"))
     out.append(dict(base, name="x-shared-options", extra="shared-options"))
+    fw = dict([g for g in HE.GEN if g.get("topo") == "firewall"][0])
+    # a default route and nothing else (no ``routes`` key) on a firewall and on a router; routes and no default route
+    out.append(dict(fw, name="x-fw-default-route-only", extra="fw-default-route"))
+    out.append(dict(base, name="x-default-route-only", extra="default-route"))
+    out.append(dict(fw, name="x-fw-routes-only", extra="fw-routes"))
+    # generated node sets (office LANs): one edge switch; two edge switches behind a core switch; non-default bandwidths
+    out.append(dict(base, name="x-node-sets", extra="node-sets"))
     return out
 
 
@@ -82,6 +89,19 @@ def build_cfg(v):
             for app in n.get("applications", []) or []:
                 if app["type"] == "web-browser":
                     app.setdefault("options", {})["fixing_duration"] = 5
+    if v.get("extra") in ("fw-default-route", "default-route", "fw-routes"):
+        for n in nodes:
+            if n["type"] in ("firewall", "router"):
+                if v["extra"] == "fw-routes":
+                    n["routes"] = [{"address": "10.3.0.0", "subnet_mask": "255.255.0.0", "next_hop_ip_address": "192.168.1.12", "metric": 3}]
+                else:
+                    n["default_route"] = {"next_hop_ip_address": "192.168.10.22"}
+    if v.get("extra") == "node-sets":
+        cfg["simulation"]["network"]["node_sets"] = [
+            {"type": "office-lan", "lan_name": "small", "subnet_base": 31, "pcs_ip_block_start": 10, "num_pcs": 3, "bandwidth": 20},
+            {"type": "office-lan", "lan_name": "large", "subnet_base": 32, "pcs_ip_block_start": 20, "num_pcs": 47, "bandwidth": 40},
+            {"type": "office-lan", "lan_name": "dflt", "subnet_base": 33, "pcs_ip_block_start": 5, "num_pcs": 24},
+        ]
     if v.get("extra") == "green":
         g = [a for a in cfg["agents"] if a["ref"] == "green_1"][0]
         g["agent_settings"]["action_probabilities"] = {2: 0.2, 0: 0.3, 1: 0.5}
@@ -318,6 +338,34 @@ def check_inventory(name, cfg, after_setup=False, built_from=None):
                     eq("folders_and_files", "file-type", "%s file %s type" % (hn, fi["file_name"]), fi["type"].upper(), f.file_type.name)
                 if f is not None and fi.get("size"):
                     eq("folders_and_files", "file-size", "%s file %s size" % (hn, fi["file_name"]), fi["size"], f.size)
+    # generated node sets: the documented meaning of the office-lan options (ConfigSchema docstrings)
+    set_nodes = set()
+    for ns in ncfg.get("node_sets", []) or []:
+        if ns.get("type") != "office-lan":
+            continue
+        lan = ns["lan_name"]
+        bw = float(ns.get("bandwidth", 100))
+        members = {hn for hn in built if hn.endswith("_" + lan)}
+        set_nodes |= members
+        pcs = sorted(hn for hn in members if hn.startswith("pc_"))
+        eq("node_set_members", "office-lan:pcs", "node set %s: generated hosts" % lan,
+           sorted("pc_%d_%s" % (i, lan) for i in range(1, ns["num_pcs"] + 1)), pcs)
+        for i in range(1, ns["num_pcs"] + 1):
+            pc = built.get("pc_%d_%s" % (i, lan))
+            if pc is not None:
+                eq("node_set_members", "office-lan:pc-address", "node set %s: address of pc %d" % (lan, i),
+                   "192.168.%d.%d" % (ns["subnet_base"], ns["pcs_ip_block_start"] + i - 1), str(pc.network_interface[1].ip_address))
+                eq("node_set_members", "office-lan:pc-connected", "node set %s: pc %d is connected" % (lan, i), True,
+                   pc.network_interface[1]._connected_link is not None)
+        eq("node_set_members", "office-lan:router", "node set %s: router present" % lan, bool(ns.get("include_router", True)),
+           ("router_" + lan) in built)
+        for l in net.links.values():
+            ends = (l.endpoint_a.parent.config.hostname, l.endpoint_b.parent.config.hostname)
+            if ends[0] in members or ends[1] in members:
+                eq("links_with_bandwidth", "office-lan:link-bandwidth", "node set %s: bandwidth of link %s<->%s" % ((lan,) + ends), bw, float(l.bandwidth))
+    if ncfg.get("node_sets"):
+        eq("nodes_exactly_as_declared", "node-set+generated", "hostnames outside the generated node sets",
+           sorted(n["hostname"] for n in node_cfgs), sorted(set(built) - set_nodes))
     # links
     want_links = sorted((tuple(sorted([(l["endpoint_a_hostname"], int(l["endpoint_a_port"])), (l["endpoint_b_hostname"], int(l["endpoint_b_port"]))])),
                          float(l.get("bandwidth", 100))) for l in ncfg.get("links", []))
